@@ -27,6 +27,12 @@ def _spread(x):
     return float(np.max(x) - np.min(x)) if len(x) else float("nan")
 
 
+def _demean(x):
+    """Input-aligned (non-reducing) user function."""
+    x = np.asarray(x, dtype=np.float64)
+    return x - (np.nanmean(x) if np.isfinite(x).any() else 0.0)
+
+
 def _first_two(x):
     out = np.full(2, np.nan)
     out[: min(2, len(x))] = x[:2]
@@ -61,7 +67,7 @@ def gen_op(s: Choices, family: str, ds, mask_kinds=("none", "bool", "slice", "po
         if name == "quantile":
             op["q"] = [[0.5], [0.25, 0.75], [0.0, 1.0]][s.draw(3)]
         if name == "apply":
-            op["func"] = s.weighted([(3, "spread"), (1, "first_two"), (1, "raises")])
+            op["func"] = s.weighted([(3, "spread"), (1, "first_two"), (1, "raises"), (2, "demean")])
             if op["func"] != "spread":
                 op["transform"] = False
     elif name in ("cumsum", "cummin", "cummax"):
@@ -134,7 +140,7 @@ def call_op(gb, op, values, mask, ds, class_form_keys=None, times=None):
             if name == "quantile":
                 return m("quantile", values, op["q"], mask=mask)
             if name == "apply":
-                fn = {"spread": _spread, "first_two": _first_two, "raises": _raises}[op["func"]]
+                fn = {"spread": _spread, "first_two": _first_two, "raises": _raises, "demean": _demean}[op["func"]]
                 if class_form_keys is not None:
                     return GroupBy.apply(class_form_keys, values, fn, mask, op["transform"])
                 return target.apply(values, fn, mask=mask, transform=op["transform"])
